@@ -2,7 +2,7 @@
 stdin: JSON list of cases {"type":..., "ops":[...]}; ops: ["a",name] add_child (both twins) | ["x",name] e.xml_n = instance |
 ["n",name] e.xml_n = None | ["v",name] e.xml_n = scalar value | ["g",name] read e.xml_n | ["A",key,valrepr] attribute set |
 ["G",key] attribute read.  stdout: JSON list of per-op comparison records."""
-import sys, io, json, contextlib, warnings
+import sys, io, json, contextlib, warnings, re
 warnings.simplefilter('ignore')
 with contextlib.redirect_stdout(io.StringIO()):
     from musicxml.xmlelement import xmlelement as XE
@@ -16,15 +16,18 @@ def dotname(n):
     return 'xml_' + n.replace('-', '_')
 
 
+ADDR = re.compile(r' object at 0x[0-9a-fA-F]+')
+
+
 def snapshot(e):
     buf = io.StringIO()
     try:
         with contextlib.redirect_stdout(buf):
             s = e.to_string()
-        ser = s
+        ser = ADDR.sub(' object', s)      # an element given as a VALUE prints with its address: not comparable between twins
     except Exception as ex:
         ser = 'EXC:' + type(ex).__name__
-    return {'ser': ser, 'uno': [(c.name, getattr(c, '_vid', None), str(c.value_)) for c in e.get_children(ordered=False)],
+    return {'ser': ser, 'uno': [(c.name, getattr(c, '_vid', None), ADDR.sub(' object', str(c.value_))) for c in e.get_children(ordered=False)],
             'ord': [(c.name, getattr(c, '_vid', None)) for c in e.get_children(ordered=True)], 'attrs': [[k, str(v)] for k, v in e.attributes.items()]}
 
 
@@ -61,6 +64,20 @@ for case in cases:
                     B.replace_child(f, cb)
                 else:
                     B.add_child(cb)
+            rb, _ = attempt(ex)
+        elif k == 'X':
+            # e.xml_n = an element of ANOTHER class: not an instance of the class the shortcut names, so it is a plain value for that child
+            # (explicit: the child class constructed with it / value_ of the existing child set to it)
+            ca, cb = R.make(op[2]), R.make(op[2]); ca._vid = cb._vid = i
+            ra, _ = attempt(lambda: setattr(A, dotname(op[1]), ca))
+            def ex():
+                if op[1] not in B.possible_children_names:
+                    raise AttributeError
+                f = B.find_child(R.class_of(op[1]).__name__)
+                if f:
+                    f.value_ = cb
+                else:
+                    c = R.class_of(op[1])(cb); B.add_child(c)
             rb, _ = attempt(ex)
         elif k in ('R', 'D'):
             ca, cb = R.make(op[1]), R.make(op[1]); ca._vid = cb._vid = i
